@@ -8,6 +8,7 @@ import PercevalModel.Model.C03
 import PercevalModel.Lemmas.C03
 import PercevalModel.Lemmas.C03Mass
 import PercevalModel.Lemmas.C03More
+import PercevalModel.Lemmas.C03Dm
 import PercevalModel.Props.C02
 import Mathlib.LinearAlgebra.Matrix.ConjTranspose
 
@@ -395,7 +396,82 @@ theorem dm_zero_columns {n : Type*} [Fintype n] [DecidableEq n] [CommRing R] [St
   · have : ∑ x, V t x * ρ x s = 0 := Finset.sum_eq_zero fun x _ => by rw [(h s hs x).2, mul_zero]
     simp [hs, this]
 
+open PM.C03.Dm in
+/-- the hypothesis of `dm_zero_columns` is a theorem for every mixed state of state vectors over ℚ[i],
+`ρ = ∑ wᵢ ψᵢψᵢ†` with non-negative weights: a basis state whose population `ρ_ss` is EXACTLY zero has a
+vanishing row and column (`∑ wᵢ |ψᵢ(s)|² = 0` forces every `wᵢ ψᵢ(s) = 0`) -/
+theorem dm_mixture_zero_population {n ι : Type*} [Fintype ι] (w : ι → ℚ) (hw : ∀ i, 0 ≤ w i)
+    (ψ : ι → n → GQ) (s : n)
+    (h : (∑ i, GQ.ofRat (w i) • vecMulVec (ψ i) (star (ψ i))) s s = 0) (j : n) :
+    (∑ i, GQ.ofRat (w i) • vecMulVec (ψ i) (star (ψ i))) s j = 0 ∧
+    (∑ i, GQ.ofRat (w i) • vecMulVec (ψ i) (star (ψ i))) j s = 0 := by
+  simp only [Matrix.sum_apply, Matrix.smul_apply, vecMulVec_apply, smul_eq_mul, Pi.star_apply] at h ⊢
+  have h1 := weighted_amp_zero w hw (fun i => ψ i s) h
+  have h2 := weighted_amp_zero_star w hw (fun i => ψ i s) h
+  constructor
+  · apply Finset.sum_eq_zero
+    intro i _
+    rw [← mul_assoc, h1 i, zero_mul]
+  · apply Finset.sum_eq_zero
+    intro i _
+    rw [mul_left_comm, h2 i, mul_zero]
+
+/-- **the criterion of `_get_density_matrix_input_list` is exact**: building the columns of the evolution
+operator only for the basis states with `ρ_ss ≠ 0` gives `V ρ V†` itself, for every matrix `V`, every mixture of
+state vectors with non-negative weights and arbitrary coefficients — however small a non-zero population is -/
+theorem dm_skip_unpopulated_exact {n ι : Type*} [Fintype n] [DecidableEq n] [Fintype ι]
+    (V : Matrix n n GQ) (w : ι → ℚ) (hw : ∀ i, 0 ≤ w i) (ψ : ι → n → GQ) :
+    let ρ : Matrix n n GQ := ∑ i, GQ.ofRat (w i) • vecMulVec (ψ i) (star (ψ i))
+    (Matrix.of fun t s => if ρ s s ≠ 0 then V t s else 0) * ρ *
+        (Matrix.of fun t s => if ρ s s ≠ 0 then V t s else 0)ᴴ = V * ρ * Vᴴ := by
+  intro ρ
+  exact dm_zero_columns V ρ (fun s => ρ s s ≠ 0)
+    (fun s hs j => dm_mixture_zero_population w hw ψ s (not_not.mp hs) j)
+
+/-- … and `≠ 0` cannot be weakened to "larger than a small ε" at the scale of ε: for the pure state
+`|0⟩ + δ|1⟩` (un-normalised) behind the real orthogonal `V = [[3,4],[4,-3]]/5`, the basis state `|1⟩` has
+population `δ²`, but leaving out its column changes the output population of `|0⟩` by
+`24/25·δ + 16/25·δ² ≥ 24/25·√population` (interference with the dominant term): a population below 1e-6
+changes an output probability by up to ~1e-3 -/
+theorem dm_population_threshold_error (δ : ℚ) :
+    let ψ : Fin 2 → GQ := ![1, GQ.ofRat δ]
+    let ρ : Matrix (Fin 2) (Fin 2) GQ := vecMulVec ψ (star ψ)
+    let V : Matrix (Fin 2) (Fin 2) GQ :=
+      Matrix.of ![![GQ.ofRat (3 / 5), GQ.ofRat (4 / 5)], ![GQ.ofRat (4 / 5), GQ.ofRat (-3 / 5)]]
+    let Vskip : Matrix (Fin 2) (Fin 2) GQ := Matrix.of fun t s => if s = 0 then V t s else 0
+    V * Vᴴ = 1 ∧ ρ 1 1 = GQ.ofRat (δ ^ 2) ∧
+    (Vskip * ρ * Vskipᴴ) 0 0 = GQ.ofRat (9 / 25) ∧
+    (V * ρ * Vᴴ) 0 0 = GQ.ofRat (9 / 25 + 24 / 25 * δ + 16 / 25 * δ ^ 2) ∧
+    24 / 25 * δ ≤ ((V * ρ * Vᴴ) 0 0).re - ((Vskip * ρ * Vskipᴴ) 0 0).re := by
+  intro ψ ρ V Vskip
+  have e1 : (Vskip * ρ * Vskipᴴ) 0 0 = GQ.ofRat (9 / 25) := by
+    simp only [Matrix.mul_apply, Fin.sum_univ_two, Matrix.conjTranspose_apply, Vskip, V, ρ, ψ,
+      vecMulVec_apply, Matrix.of_apply, Pi.star_apply]
+    ext <;> simp [GQ.ofRat] <;> ring
+  have e2 : (V * ρ * Vᴴ) 0 0 = GQ.ofRat (9 / 25 + 24 / 25 * δ + 16 / 25 * δ ^ 2) := by
+    simp only [Matrix.mul_apply, Fin.sum_univ_two, Matrix.conjTranspose_apply, V, ρ, ψ,
+      vecMulVec_apply, Pi.star_apply]
+    ext <;> simp [GQ.ofRat] <;> ring
+  refine ⟨?_, ?_, e1, e2, ?_⟩
+  · ext i j <;> fin_cases i <;> fin_cases j <;>
+      simp [Matrix.mul_apply, Fin.sum_univ_two, Matrix.conjTranspose_apply, V, GQ.ofRat] <;>
+      norm_num
+  · simp only [ρ, ψ, vecMulVec_apply, Pi.star_apply]
+    ext <;> simp [GQ.ofRat] <;> ring
+  · rw [e1, e2]
+    simp only [GQ.ofRat]
+    nlinarith [sq_nonneg δ]
+
 /-! ## non-vacuity -/
+
+/-- `dm_mixture_zero_population`, `dm_skip_unpopulated_exact`: one member of weight 1, `ψ = (1, 0)`: the second
+basis state has population exactly 0 -/
+example : (∀ i : Fin 1, (0 : ℚ) ≤ (fun _ => 1) i) ∧
+    (∑ i : Fin 1, GQ.ofRat ((fun _ => (1 : ℚ)) i) •
+      vecMulVec ((fun _ => ![(1 : GQ), 0]) i) (star ((fun _ => ![(1 : GQ), 0]) i))) 1 1 = 0 := by
+  refine ⟨fun _ => by norm_num, ?_⟩
+  simp [vecMulVec_apply]
+
 
 /-- `mixture_convex`, `trim_error_bound`: two unit-mass members, weights 1/4 and 3/4 -/
 example : (∀ p ∈ [((1 : ℚ) / 4, ([([1, 0], 1)] : D)), (3 / 4, [([0, 1], 1 / 2), ([1, 0], 1 / 2)])],
